@@ -3918,7 +3918,12 @@ public:
     //! @brief Checks if has value
     constexpr bool has_value() const noexcept
     {
-        return (val != Derived::null_value());
+        // NaN (the default `nullValue` of `float`/`double`) never compares
+        // equal to itself, such a null value is matched by "is NaN"
+        return !(
+            (val == Derived::null_value())
+            || (is_nan(Derived::null_value(), std::is_floating_point<T>{})
+                && is_nan(val, std::is_floating_point<T>{})));
     }
 
     //! @brief Checks if has value
@@ -3938,7 +3943,9 @@ public:
     constexpr friend bool
         operator==(const optional_base& lhs, const optional_base& rhs) noexcept
     {
-        return *lhs == *rhs;
+        return (lhs.has_value() && rhs.has_value())
+                   ? (*lhs == *rhs)
+                   : (lhs.has_value() == rhs.has_value());
     }
 
 #ifdef SBEPP_DOXYGEN
@@ -3963,7 +3970,7 @@ public:
     constexpr friend bool
         operator!=(const optional_base& lhs, const optional_base& rhs) noexcept
     {
-        return *lhs != *rhs;
+        return !(lhs == rhs);
     }
 
     //! @brief Tests if `lhs` is less than `rhs`
@@ -3997,6 +4004,16 @@ public:
     //! @}
 
 private:
+    static constexpr bool is_nan(const value_type v, std::true_type) noexcept
+    {
+        return v != v;
+    }
+
+    static constexpr bool is_nan(const value_type, std::false_type) noexcept
+    {
+        return false;
+    }
+
     value_type val{Derived::null_value()};
 };
 } // namespace detail
